@@ -42,6 +42,21 @@ Theorem action_registry_linearizable : forall threads sched,
 Proof. intros. apply atomic_lin. Qed.
 Print Assumptions action_registry_linearizable.
 
+(* the Message registry: every delivery sees the subscribers of one moment (the list it iterates is the registry's
+   content at its linearization point): no subscriber is skipped or served twice because of a concurrent Unregister *)
+Theorem message_registry_linearizable : forall threads sched,
+  lin_strong _ _ _ msg_step [] (tr (exec (atomic_prog msg_step) (start [] threads) sched)).
+Proof. intros. apply atomic_lin. Qed.
+Print Assumptions message_registry_linearizable.
+
+(* ... and in the specification, as long as no channel is registered while it is registered, the registry never
+   holds a channel twice and a delivery serves every subscriber exactly once *)
+Theorem delivery_serves_each_subscriber_once : forall (s : list N) (o : mop),
+  NoDup s -> (forall ch, o = MReg ch -> ~ In ch s) ->
+  NoDup (fst (msg_step s o)) /\ (forall l, snd (msg_step s o) = MList l -> NoDup l).
+Proof. exact msg_step_nodup. Qed.
+Print Assumptions delivery_serves_each_subscriber_once.
+
 Theorem inbox_linearizable : forall threads sched,
   lin_strong _ _ _ inbox_step [] (tr (exec (atomic_prog inbox_step) (start [] threads) sched)).
 Proof. intros. apply atomic_lin. Qed.
@@ -225,5 +240,5 @@ Proof. vm_compute. repeat split. Qed.
 
 Example table_nonvacuous :
   (List.length Gen_C13.table >= 100)%nat /\ (List.length shared_fields >= 12)%nat /\
-  (List.length modelled_atomic = 38)%nat /\ (List.length all_locks >= 15)%nat.
+  (List.length modelled_atomic = 46)%nat /\ (List.length all_locks >= 15)%nat.
 Proof. vm_compute. repeat split; repeat constructor. Qed.
